@@ -112,6 +112,19 @@ def opAuth (j : Json) : R Json := do
   let cp ← asStrList (← fld j "parts")
   pure (Json.mkObj [("ok", .bool (Dds.isAuthorizedPath a cp))])
 
+/-- {"op":"objkind","accept_list":b,"accept_dict":b,"kind":"tuple"} -/
+def opObjKind (j : Json) : R Json := do
+  let al ← fldBool j "accept_list"
+  let ad ← fldBool j "accept_dict"
+  let k : Dds.ObjKind ← match (← fldStr j "kind") with
+    | "scalar" => pure .scalar | "tuple" => pure .tuple | "function" => pure .function | "module" => pure .module
+    | "list" => pure .list | "dict" => pure .dict | "noModule" => pure .noModule
+    | "ofAccepted" => pure .ofAccepted | "ofForeign" => pure .ofForeign
+    | s => .error s!"unknown kind {s}"
+  let r := match Dds.objTracking al ad k with
+    | .tracked => "tracked" | .ignored => "ignored" | .refused => "refused"
+  pure (Json.mkObj [("ok", .str r)])
+
 /-- {"op":"overlap","paths":[["a","b"],…]} -/
 def opOverlap (j : Json) : R Json := do
   let ps ← (← fldArr j "paths").toList.mapM asStrList
